@@ -81,6 +81,19 @@ CHECKS = {
         'note': 'which modes are counted is an input property decided by enumeration; the simulator decides the '
                 'thread-count / schedule independence',
     },
+    'C13': {
+        'engine': 'E1-threads',
+        'technique': 'deterministic simulation of the whole calc_power pipeline on simulated threads (seeded schedules, '
+                     'two thread counts per case) with metamorphic oracles',
+        'text': 'calc_power (plain Python, as is) drives the simulated kernels with real scipy.fft; per case six runs: '
+                'base, permuted, translated by whole cells (particles on a dyadic lattice so the shift is exact), another '
+                'thread count, cross=auto, other particles; float columns must agree within 2e-5*max|P| and the '
+                'mode-count / bin columns bitwise; data-race invariant on every region. Only the thread-count clause '
+                'is a schedule property; the other symmetries are input relations evaluated on the same runs.',
+        'design_ref': 'DESIGN.md 4 (C13)',
+        'note': 'sampling over meshes 4..16, TSC/CIC, compensated/interlaced, binnings; compiled pipeline cross-checked '
+                'single-threaded on a tenth of the cases',
+    },
 }
 
 NOT_APPLICABLE = {
@@ -91,5 +104,5 @@ NOT_APPLICABLE = {
            'no chunking, interleaving or fault for a simulator to vary',
     'C18': 'pure function on a finite domain of 65340 codes: complete enumeration, which is not simulation',
 }
-for _p in ('C01', 'C02', 'C03', 'C05', 'C09', 'C10', 'C11', 'C12', 'C13', 'C16', 'C19', 'C20'):
+for _p in ('C01', 'C02', 'C03', 'C05', 'C09', 'C10', 'C11', 'C12', 'C16', 'C19', 'C20'):
     NOT_APPLICABLE.setdefault(_p, PENDING)
